@@ -97,7 +97,8 @@ def rerun(ids):
             return sid, None
         meta = json.load(open(mp))
         checks = [r["check"] for r in meta.get("checks_run", [])] or [meta["breaks_property"]]
-        results = [try_check(os.path.join(base, sid, "patch.diff"), c) for c in checks]
+        # "tier_for": {"C06": "thorough"} in meta.json: the change needs something only the thorough tier runs
+        results = [try_check(os.path.join(base, sid, "patch.diff"), c, meta.get("tier_for", {}).get(c, "quick")) for c in checks]
         meta["checks_run"] = results
         meta["caught_by"] = [r["check"] for r in results if r["caught"]]
         with open(mp, "w") as f:
